@@ -638,32 +638,126 @@ func runC46(c *Ctx) {
 
 func runC47(c *Ctx) {
 	pa := c.Func("cmd/internal/listen", "", "ParseAddresses")
-	// overrides replace only when non-empty after coalescing
+	// overrides replace only when non-empty after coalescing. Which list the loop runs over is
+	// found by executing the function up to the loop, with coalesceAddrs(base) and
+	// coalesceAddrs(overrides) modelled as lists of 0, 1 or 2 marked elements (the choice can
+	// only depend on their lengths: any other operation on them is outside the evaluator):
+	// the loop must see the overrides' list when it is non-empty and the base list otherwise
+	// (and the function fails without a loop when both are empty).
 	okOv := false
-	ast.Inspect(pa.Body, func(n ast.Node) bool {
-		ifs, ok := n.(*ast.IfStmt)
-		if !ok || ifs.Init == nil {
-			return true
+	ovWhy := ""
+	{
+		var loop *ast.RangeStmt
+		for _, nd := range shallowNodes(pa.Body) {
+			if r, ok := nd.(*ast.RangeStmt); ok && loop == nil {
+				loop = r
+			}
 		}
-		as, ok := ifs.Init.(*ast.AssignStmt)
-		if !ok || len(as.Rhs) != 1 {
-			return true
-		}
-		call, ok := as.Rhs[0].(*ast.CallExpr)
-		if !ok || !pa.IsCall(call, "cmd/internal/listen.coalesceAddrs") || pa.Prov(call.Args[0]) != "param#2" {
-			return true
-		}
-		be, ok := ifs.Cond.(*ast.BinaryExpr)
-		if ok && be.Op == token.GTR && isLenOf(pa, be.X, func(e ast.Expr) bool { return pa.varOf(e) == pa.varOf(as.Lhs[0]) }) {
-			for _, st := range ifs.Body.List {
-				if a2, ok := st.(*ast.AssignStmt); ok && pa.varOf(a2.Rhs[0]) == pa.varOf(as.Lhs[0]) {
-					okOv = true
+		type stopAtLoop struct{ list Val }
+		okOv = loop != nil
+		for nb := 0; nb <= 2 && okOv; nb++ {
+			for no := 0; no <= 2 && okOv; no++ {
+				mk := func(tag string, n int) sliceVal {
+					out := sliceVal{}
+					for i := 0; i < n; i++ {
+						out = append(out, fmt.Sprintf("%s%d", tag, i))
+					}
+					return out
+				}
+				env := &evalEnv{f: pa, vars: map[types.Object]Val{}}
+				i := 0
+				for _, fld := range pa.Type.Params.List {
+					for _, nm := range fld.Names {
+						env.vars[pa.Info.Defs[nm]] = objVal{id: big.NewInt(int64(100 + i))}
+						i++
+					}
+				}
+				env.ext = func(f *Fn, call *ast.CallExpr, recv Val, args []Val) (Val, bool) {
+					if f.IsCall(call, "cmd/internal/listen.coalesceAddrs") && len(args) == 1 {
+						if o, ok := args[0].(objVal); ok {
+							switch o.id.Int64() {
+							case 101:
+								return mk("base", nb), true
+							case 102:
+								return mk("override", no), true
+							}
+						}
+					}
+					if f.IsCall(call, "fmt.Errorf", "errors.New") {
+						return objVal{id: big.NewInt(999)}, true
+					}
+					return nil, false
+				}
+				env.pre = func(f *Fn, call *ast.CallExpr) (Val, bool) {
+					if id, ok := ast.Unparen(call.Fun).(*ast.Ident); ok {
+						if b, ok := f.Info.Uses[id].(*types.Builtin); ok && b.Name() == "make" {
+							return objVal{id: big.NewInt(int64(call.Pos()))}, true
+						}
+					}
+					return nil, false
+				}
+				var seenList Val
+				var ret *returned
+				func() {
+					defer func() {
+						if r := recover(); r != nil {
+							switch x := r.(type) {
+							case stopAtLoop:
+								seenList = x.list
+							case evalUndecided:
+								okOv = false
+								ovWhy = "not evaluable up to the loop: " + x.msg
+							default:
+								panic(r)
+							}
+						}
+					}()
+					for _, st := range pa.Body.List {
+						if containsNode(st, loop) {
+							if st != ast.Stmt(loop) {
+								undecided("the address loop is nested in another statement")
+							}
+							panic(stopAtLoop{env.expr(loop.X)})
+						}
+						if ret = env.stmt(st); ret != nil {
+							return
+						}
+					}
+				}()
+				if !okOv {
+					break
+				}
+				want := mk("override", no)
+				if no == 0 {
+					want = mk("base", nb)
+				}
+				if nb == 0 && no == 0 {
+					// nothing to listen on: an error, no loop
+					if ret == nil || len(ret.vals) != 2 {
+						okOv = false
+						ovWhy = "with both lists empty the function does not fail before the loop"
+					} else if _, isNil := ret.vals[1].(nilVal); isNil {
+						okOv = false
+						ovWhy = "with both lists empty the function returns a nil error"
+					}
+					continue
+				}
+				got, isList := seenList.(sliceVal)
+				if !isList || len(got) != len(want) {
+					okOv = false
+					ovWhy = fmt.Sprintf("with %d base and %d override entries the loop runs over %v", nb, no, seenList)
+					continue
+				}
+				for k := range want {
+					if got[k] != want[k] {
+						okOv = false
+						ovWhy = fmt.Sprintf("with %d base and %d override entries the loop runs over %v", nb, no, seenList)
+					}
 				}
 			}
 		}
-		return true
-	})
-	c.Ob("listen", "ParseAddresses#overrides-only-when-non-empty-after-trim", pa.Decl.Pos(), okOv, "overrides replace the base list only if something remains after trimming and dropping empties")
+	}
+	c.Ob("listen", "ParseAddresses#overrides-only-when-non-empty-after-trim", pa.Decl.Pos(), okOv, "overrides replace the base list only if something remains after trimming and dropping empties; "+ovWhy)
 	okBase := false
 	for _, call := range pa.CallsTo(false, "cmd/internal/listen.coalesceAddrs") {
 		if pa.Prov(call.Args[0]) == "param#1" {
@@ -704,83 +798,149 @@ func runC47(c *Ctx) {
 		c.Failf("ParseAddresses: append / seen insertion not recognised (undecided)")
 	}
 	notSeen := factReq{"not seen before", func(g *Fn, fs *FactSet) bool {
-		return fs.Has(func(fa *Fact) bool {
-			// if _, ok := seen[a]; ok { continue }
-			if fa.Kind != FCmp || fa.Truth {
-				return false
+		// the element is known absent from the map the insertion writes
+		for _, in := range pa.seenInserts(rs.Body) {
+			if pa.notInSeen(fs, in.m, in.key) {
+				return true
 			}
-			id, ok := fa.Expr.(*ast.Ident)
-			return ok && id.Name == "ok"
-		})
+		}
+		return false
 	}}
+	// host classes, as far as the code can tell them apart: empty, the Fly host, an IP
+	// literal, anything else. The facts (about the host) known at the site are executed on the
+	// evaluator for a representative of each class, with net.ParseIP modelled; a class is
+	// admitted when every such fact evaluates to the truth value recorded for it. Exactly the
+	// first three classes must be admitted. A fact about the host the evaluator cannot run
+	// (any other string operation) leaves the site undecided, which fails it.
+	flyVal := ""
+	if k, ok := c.P("cmd/internal/listen").Types.Scope().Lookup("FlyGlobalServicesHost").(*types.Const); ok {
+		flyVal, _ = constToVal(k.Val()).(string)
+	}
+	if flyVal == "" {
+		c.Failf("anchor unresolved: FlyGlobalServicesHost")
+	}
+	hostClasses := []struct{ name, rep string }{{"empty", ""}, {"fly", flyVal}, {"ip", "192.0.2.7"}, {"other", "zz-not-an-ip-7f3a.invalid"}}
+	hostAdmitted := func(g *Fn, fs *FactSet) (map[string]bool, string) {
+		isHost := func(f *Fn, e ast.Expr) bool {
+			return f.varOf(e) != nil && f.Prov(e) == "call:net.SplitHostPort()#0"
+		}
+		admitted := map[string]bool{}
+		nfacts := 0
+		for _, hc := range hostClasses {
+			ok := true
+			for _, fa := range fs.Facts {
+				if fa.Kind != FCmp || fa.Expr == nil || fa.Tag != nil {
+					continue
+				}
+				fg := pa.enclosing(fa.Expr)
+				mentions := false
+				ast.Inspect(fa.Expr, func(n ast.Node) bool {
+					if id, isId := n.(*ast.Ident); isId && isHost(pa.enclosing(id), id) {
+						mentions = true
+					}
+					return true
+				})
+				if !mentions {
+					continue
+				}
+				nfacts++
+				env := &evalEnv{f: fg, vars: map[types.Object]Val{}}
+				ast.Inspect(fa.Expr, func(n ast.Node) bool {
+					if id, isId := n.(*ast.Ident); isId && isHost(pa.enclosing(id), id) {
+						env.vars[pa.enclosing(id).Info.ObjectOf(id)] = hc.rep
+					}
+					return true
+				})
+				env.ext = func(f *Fn, call *ast.CallExpr, recv Val, args []Val) (Val, bool) {
+					if f.IsCall(call, "net.ParseIP") && len(args) == 1 {
+						if sv, isStr := args[0].(string); isStr {
+							if sv == "192.0.2.7" {
+								return objVal{id: big.NewInt(7)}, true
+							}
+							return nilVal{}, true
+						}
+					}
+					return nil, false
+				}
+				var got Val
+				undec := ""
+				func() {
+					defer func() {
+						if r := recover(); r != nil {
+							if u, isU := r.(evalUndecided); isU {
+								undec = u.msg
+								return
+							}
+							panic(r)
+						}
+					}()
+					got = env.expr(fa.Expr)
+				}()
+				if undec != "" {
+					return nil, "a test of the host is outside the evaluator: " + undec
+				}
+				b, isBool := got.(bool)
+				if !isBool {
+					return nil, "a test of the host does not evaluate to a boolean"
+				}
+				if b != fa.Truth {
+					ok = false
+				}
+			}
+			admitted[hc.name] = ok
+		}
+		if nfacts == 0 {
+			return nil, "no test of the host is known to have been made"
+		}
+		return admitted, ""
+	}
 	validated := []factReq{
 		reqCallOK("net.SplitHostPort"),
 		{"host is empty, an IP, or the Fly host", func(g *Fn, fs *FactSet) bool {
-			return fs.Cmp(func(e, tag ast.Expr, truth bool, fa *Fact) bool {
-				if truth {
-					return false
-				}
-				be, ok := e.(*ast.BinaryExpr)
-				if !ok || be.Op != token.LAND {
-					return false
-				}
-				s := types_ExprString(be)
-				// exactly: host != "" && ParseIP(host) == nil && host != FlyGlobalServicesHost
-				var ats []atom
-				collectAtoms(be, true, &ats)
-				if len(ats) != 3 {
-					return false
-				}
-				okEmpty, okIP, okFly := false, false, false
-				for _, at := range ats {
-					b, ok := at.e.(*ast.BinaryExpr)
-					if !ok || !at.truth {
-						return false
-					}
-					v, _ := g.ConstVal(b.Y)
-					switch {
-					case b.Op == token.NEQ && v == "\"\"":
-						okEmpty = true
-					case b.Op == token.EQL && isNilIdent(g.Info, b.Y):
-						if cl, ok := ast.Unparen(b.X).(*ast.CallExpr); ok && g.IsCall(cl, "net.ParseIP") {
-							okIP = true
-						}
-					case b.Op == token.NEQ && constName(g, b.Y) == "FlyGlobalServicesHost":
-						okFly = true
-					}
-				}
-				_ = s
-				return okEmpty && okIP && okFly
-			})
+			adm, why := hostAdmitted(g, fs)
+			if why != "" {
+				return false
+			}
+			return adm["empty"] && adm["fly"] && adm["ip"] && !adm["other"]
 		}},
 	}
 	for _, ins := range inss {
 		requireAt(c, "listen", "ParseAddresses#seen-updated-after-validation", pa, ins, "an address is remembered only after it was validated (a rejected duplicate must be rejected again)", append([]factReq{notSeen}, validated...)...)
 	}
 	requireAt(c, "listen", "ParseAddresses#append-after-dedup-and-validation", pa, ap, "an address is emitted only if it was not seen before and passed validation; the non-IP rejection excludes exactly the Fly host constant", append([]factReq{notSeen}, validated...)...)
-	// the entry's fields
+	// the entry's fields: read where the appended value is built (in the append itself, or at
+	// the returns of the literal that produces it)
 	okFields := false
-	ast.Inspect(ap, func(n ast.Node) bool {
-		cl, ok := n.(*ast.CompositeLit)
-		if !ok {
-			return true
+	elemProv := pa.Prov(rs.Value)
+	for _, vs := range valueSites(pa, ap, ap.Args[len(ap.Args)-1]) {
+		var cl *ast.CompositeLit
+		ast.Inspect(vs.val, func(n ast.Node) bool {
+			if x, ok := n.(*ast.CompositeLit); ok && cl == nil {
+				cl = x
+			}
+			return cl == nil
+		})
+		if cl == nil {
+			if v := vs.g.varOf(vs.val); v != nil {
+				if defs := vs.g.defsOf(v); len(defs) == 1 && defs[0].rhs != nil {
+					cl, _ = ast.Unparen(defs[0].rhs).(*ast.CompositeLit)
+				}
+			}
+		}
+		if cl == nil {
+			continue
+		}
+		if len(cl.Elts) == 0 {
+			continue // the zero value that accompanies an error
 		}
 		m := map[string]string{}
 		for _, el := range cl.Elts {
 			if kv, ok := el.(*ast.KeyValueExpr); ok {
-				m[kv.Key.(*ast.Ident).Name] = pa.Prov(kv.Value)
+				m[kv.Key.(*ast.Ident).Name] = vs.g.Prov(kv.Value)
 			}
 		}
-		okFields = pa.varOf(func() ast.Expr {
-			for _, el := range cl.Elts {
-				if kv, ok := el.(*ast.KeyValueExpr); ok && kv.Key.(*ast.Ident).Name == "Address" {
-					return kv.Value
-				}
-			}
-			return nil
-		}()) == elem && m["Host"] == "call:net.SplitHostPort()#0" && m["Network"] == "call:cmd/internal/listen.NetworkForVersion()" && m["Version"] == "call:cmd/internal/listen.overrideHostIPVersion()"
-		return true
-	})
+		okFields = m["Address"] == elemProv && m["Host"] == "call:net.SplitHostPort()#0" && m["Network"] == "call:cmd/internal/listen.NetworkForVersion()" && m["Version"] == "call:cmd/internal/listen.overrideHostIPVersion()"
+	}
 	c.Ob("listen", "ParseAddresses#entry-fields", ap.Pos(), okFields, "each output carries its own address, its host, the (possibly overridden) IP version and the network derived from it")
 	// empty -> error
 	okEmpty := false
